@@ -60,7 +60,7 @@ def rows(quick, fault, drop):
               # flush in the middle of a unit: a short unit, then full ones (unit boundaries no longer multiples)
               ("w-flush-first", "lzma2", 2, ["f", "F", "X"], {}, "tour"),
               ("w-flush-only", "lzip", 2, ["f", "X"], {}, "tour"),
-              ("w-midflush", "lzma2", 2, ["F", "P", "f", "F", "F", "X"], {}, "rand"),
+              ("w-midflush", "lzma2", 2, ["F", "P", "f", "F", "F", "X"], dict(extra=dict(weight=4)), "rand"),
               ("w-midflush-lzip-3w", "lzip", 3, ["F", "P", "f", "F", "X"], {}, "rand")]
         if not quick:
             R += [("w-backpressure", "lzma2", 2, ["F", "F", "F", "F", "F", "F", "X"], {}, "rand"),
@@ -74,8 +74,9 @@ def cfgs(quick, fault=False, drop=False):
     for (name, kind, workers, calls, kw, mode) in rows(quick, fault, drop):
         kw = dict(kw)
         extra = kw.pop("extra", None)
+        weight = (extra or {}).pop("weight", 1) if extra else 1
         out.append(dict(name=name, fam=kind + "_writer", consts=consts(workers, calls, **kw), mode=mode,
-                        calls=calls, extra=extra, **WRITER))
+                        calls=calls, extra=extra or None, weight=weight, **WRITER))
     return out
 
 
